@@ -13,6 +13,12 @@ CHECKS = {
         text="Real FortranReader+FortranWriter (no transformation) on every program of a generated front-end construct family (SELECT CASE with values/ranges/default/logical selectors, WHERE/ELSEWHERE incl. non-elemental right-hand sides, array notation and reductions with DIM/MASK, loops with negative/zero-trip/stepped bounds, DO WHILE, EXIT/CYCLE/RETURN, named and optional arguments, functions, grouping-sensitive expressions, code blocks). Original and written text are both executed symbolically by an interpreter written from the standard (not via PSyclone's lowering) and one z3 query per program decides equality of every observable for all inputs; a second query decides that the written code stays in bounds / does not divide by zero whenever the original does not. Reader/writer internal errors and output that gfortran rejects are reported as violations (decided by running, not by the solver). Counterexamples are replayed through gfortran.",
         note="Bounds: extents and trip counts <= 3 (quick) / 4 (thorough); exact integer/real arithmetic; programs = enumerated G-F family (about 150), inputs = solver. Trusted: fparser2 parser, z3, fsym, gfortran for replay.",
         ref="5/C01"),
+    "C02": dict(
+        level="translation_validation", engine="fsym",
+        technique="SMT equivalence of the PSyIR tree (structure = grouping) and the fparser2 parse of the written text under a grouping-sensitive semantics (all operators uninterpreted; IEEE FP(5,11) stage for value witnesses); read-back comparison as replay",
+        text="Real FortranWriter on PSyIR expression trees built with the node API: every tree of depth <= 2 over the unary/binary operators (numeric, relational, logical) with operands in every position, the same trees with leaves replaced by literals of every kind/precision, negative literals, array and structure accesses, 'twin' trees with structurally identical operands, and sampled depth-3/4 trees with intrinsic calls. The tree is evaluated structurally and the written text is parsed by fparser2 and evaluated under the same semantics; z3 decides, for all leaf values and all interpretations of the operators, whether the two can differ (stage 1: operators uninterpreted - the most general semantics; stage 2: IEEE FP(5,11) arithmetic to obtain concrete witness values). Every sat answer is confirmed by reading the text back with the real FortranReader and comparing trees structurally. Text that fparser2 rejects violates the standard-conformance clause.",
+        note="Bounds: exhaustive to depth 2 over 2 numeric + 2 logical leaves (about 15k trees), decorated/sampled trees to depth 4 (VERIF_SEED); REM has no Fortran spelling (refused). Trusted: fparser2's expression grammar as the definition of Fortran grouping, z3.",
+        ref="5/C02"),
     "C05": dict(
         level="translation_validation", engine="fsym",
         technique="SMT translation validation: z3 decides equivalence of symbolically executed original vs transformed Fortran (all inputs, trip<=K)",
